@@ -162,9 +162,10 @@ func (s *atpServerSession) handleClosure() []*ServerError {
 }
 
 func (s *atpServerSession) runATPReadLoop() {
-	// The message is generic, so we must find the type and decode the full message next.
-	var runtimeMessage DecodedRuntimeMessage
 	for {
+		// The message is generic, so we must find the type and decode the full message next.
+		// A fresh value per message: the decoder leaves fields that are absent from the input unchanged.
+		var runtimeMessage DecodedRuntimeMessage
 		// First, decode the message
 		// Note: This blocks. To abort early, close stdin.
 		if err := s.cborStdin.Decode(&runtimeMessage); err != nil {
